@@ -1,6 +1,7 @@
 from collections import defaultdict
 from sigma.conditions import ConditionAND, ConditionOR
 from typing import (
+    Any,
     ClassVar,
     Literal,
     Optional,
@@ -16,6 +17,7 @@ from sigma.processing.transformations.base import (
     ValueTransformation,
 )
 from sigma.rule import SigmaDetection, SigmaDetectionItem
+from sigma.modifiers import SigmaAllModifier, SigmaModifier, SigmaNegateModifier
 from sigma.exceptions import (
     SigmaRegularExpressionError,
     SigmaValueError,
@@ -194,14 +196,19 @@ class HashesFieldsDetectionItemTransformation(DetectionItemTransformation):
         item_linking = value_linking
         if negated:
             item_linking = ConditionAND if value_linking is ConditionOR else ConditionOR
+        # Linking and negation are carried by the modifiers that express them (all, neq), which set
+        # them while the item is built: the new items then also serialise with their meaning.
+        modifiers: list[type[SigmaModifier[Any, Any]]] = []
+        if value_linking is ConditionAND:
+            modifiers.append(SigmaAllModifier)
+        if negated:
+            modifiers.append(SigmaNegateModifier)
         return SigmaDetection(
             detection_items=[
                 SigmaDetectionItem(
                     field=k if k != "keyword" else None,
-                    modifiers=[],
+                    modifiers=list(modifiers),
                     value=[SigmaString(x) for x in v],
-                    value_linking=value_linking,
-                    negated=negated,
                 )
                 for k, v in algo_dict.items()
                 if k
